@@ -100,3 +100,59 @@ claim("C18",
       "[partial] float rounding inside haversine and ties on seams are outside the theorems: nearest-face selection is searched against a direct 3-D dot-product argmax on uniform points and points within 1e-12..1e-7 of the seams; base-cell centres, pole lookups and the frame read from the running library are checked on every run.",
       "Lean 4 proof (decide +kernel over regenerated tables and exact dyadic constants; real-analysis identity in Mathlib) + bit-exact correspondence + seam-focused search",
       "DESIGN.md section 6 C18")
+claim("C01",
+      "[full, skeleton] For ALL float inputs (every libm result treated as an arbitrary value): lookup_resolution (an Ok result is a canonical id of exactly the requested resolution; world cell for -1), lookup_out_of_range (resolutions outside -1..29 are rejected), "
+      "lookup_outcomes (the only possible outcomes are Ok, err crsVertex, or the float-dependent notCCW panic: index panics, the empty-fallback case and the shift/sub overflow guards of ij_to_s / s_to_anchor are ruled out for all inputs), "
+      "lookup_hit_sound (a direct or probe hit returns a cell whose own planar containment test is strictly positive for the point; the fallback returns the first maximum of the recorded distances), lookup_branches. "
+      "[partial: model-validated and searched, NOT proved] that the returned cell contains the point for every point of the sphere (adequacy of the 25-probe heuristic - in fact false in the polar caps: known finding F11, recorded, not repaired), periodicity in longitude, pole handling, the 1e-12 edge band. "
+      "Search: spherical winding test against the returned cell's reported boundary, independent of contains_point, on uniform / polar / seam / vertex / edge-hugging / antimeridian / wrapped-longitude points x resolutions 0..29; bit-exact correspondence incl. the branch that produced the answer (hook). "
+      "A miss is matched to F11 only if it comes from the fallback branch, the frozen model returns the same id through the same branch and the regenerated tables equal the reference tables; any other miss is a violation.",
+      "Lean 4 proof of the integer/list skeleton of the lookup (all float sub-results universally quantified) + bit-exact correspondence with branch hook + independent containment search",
+      "DESIGN.md section 6 C01; section 7 F11")
+claim("C02",
+      "[full, exact arithmetic] cell_roundtrip_exact: for every valid cell of resolution >= 2 and every orientation, over any ordered field: id -> decode -> anchor -> ANY point of the anchor's lattice triangle -> ij_to_s -> encode is the identity (composition of C05 and C17); distinct cells of a quintant have disjoint lattice triangles; "
+      "segment<->quintant conversions are mutually inverse; lookup_direct_hit_is_roundtrip / roundtrip_of_direct_hit on the Float model (branch 0 <=> the estimate of the point itself contains it). "
+      "[residue, stated as unproved defs] that the float pentagon centre lies inside its lattice triangle with margin and that the projection round trip error stays below it: measured on every run (C17: margin 0.1487; C15: 8e-15 rad). "
+      "Search: cell -> reported centre -> lookup for every cell r<=3 (quick) / r<=6 (thorough) and every face x quintant x patterned positions to r=29, plus interior points on centre-corner chords; bit-exact correspondence. "
+      "Misses that come from the lookup's fallback branch at high latitude are the recorded finding F11 (same predicate as C01).",
+      "Lean 4 proof (composition of the codec and curve bijection theorems over an ordered field) + bit-exact correspondence + exhaustive low-resolution round trips",
+      "DESIGN.md section 6 C02")
+claim("C03",
+      "[full, combinatorial half] lattice_partition / cells_partition_quintant: for every depth and every orientation each off-lattice point of the quintant triangle lies in the lattice triangle of exactly one curve position (no triangle claimed twice, none left out); "
+      "[full, abstract and conditional] disjoint_of_cover_and_equal_area: in a finite measure space, measurable sets of equal measure mu(X)/N that cover X overlap only in null sets - reducing 'no overlap' on the sphere to 'every point is in some cell' (C01) and 'equal area' (C04/C16). "
+      "[not proved, kept as a def] the seams between quintants, across the 30 dodecahedron edges and at the 20 vertices (kind-III geometry). "
+      "Search: for points stepped 0.05..1.5 cell sizes away from edges and vertices of base cells and quintants, and uniform points, the candidate cells from a three-ring neighbourhood must contain the point exactly once, by the library's planar test and by an independent winding test on the reported boundaries; bit-exact correspondence of contains / lonlat_to_cell.",
+      "Lean 4 proof (tiling of the quintant by anchor triangles; measure-theoretic reduction in Mathlib) + bit-exact correspondence + neighbourhood search at seams and vertices",
+      "DESIGN.md section 6 C03")
+claim("C11",
+      "[full, list skeleton for ALL float values] ring_length (exactly vertices*n points, 3 for quintant cells else 5, +1 when closed; default n; n = 0 behaves like 1), ring_closed (first = last; the closed ring is the open ring with its last point put in front), ring_world (every alias of the world cell gives the empty ring), ring_nonempty; "
+      "corners_independent_of_n_partial (corner i sits at index i*n of the split list or its mirror image); unwrap_window / unwrap_fuel over any ordered field (result within +-180 of the centre, differs by a multiple of 360, fuel bound) with the twin tied to the Float model by rfl. "
+      "[not proved] latitude range, orientation on the sphere, centre inside the ring, the 180-degree window: searched on the implementation (independent spherical area sign and winding test) for antimeridian and polar cells at every resolution, random cells, closed/open, n in {1,2,3,5,7,16,64,default}; corner identity across n. "
+      "The search found defect F14 (polar rings degenerate at high resolution), repaired by fix e88aa12.",
+      "Lean 4 proof of the list/outcome skeleton of cell_to_boundary (float values universally quantified) + bit-exact correspondence + independent ring checks",
+      "DESIGN.md section 6 C11")
+claim("C12",
+      "[full, lattice level] child_digits_extend_parent (all depths, positions, both patterns: the child's shifted digit string is the parent's with its last digit rewritten through the generated pattern plus one new digit), child_offset_close (O_child - 2 O_parent lies in an explicit set of 15 / 13 integer vectors, bound 2 resp. 3 per coordinate, for all six orientations), "
+      "descendant_offset_bounded (|O_desc - 2^k O_anc| <= B (2^k - 1): bounded reach at every depth), descendant_triangle_reach; child_triangle_not_contained (lattice containment is false - as the property says, pentagons cannot nest). "
+      "[not proved] the planar pentagon overlap, coverage > 1/2 and centre distance < 0.8 sqrt(area), and the transfer to the sphere: searched on the implementation for every parent r<=1 (quick) / r<=3 (thorough) and random parents to r=28 (sampled coverage in a gnomonic chart, min 0.567 observed; max centre distance 0.705).",
+      "Lean 4 proof (digit-shift structure of parent and child positions; decide over the finite configuration table) + bit-exact correspondence + geometric search",
+      "DESIGN.md section 6 C12")
+claim("C15",
+      "[partial, small] bary_roundtrip over any field (barycentric maps are mutually inverse when the triangle is non-degenerate; coordinates sum to 1), reflected_apex_point_reflection / reflected_triangle_is_mirror / reflect_midpoint_is_edge_midpoint (the reflected chart is the mirror image of the base triangle in the face edge), "
+      "triangle_index_total (index in 0..9 for EVERY Float incl. NaN / infinities), inverse_snaps_corners (the three early returns fire exactly above 1 - 1e-14); generic twins tied to the Float model by rfl. "
+      "[not proved - the largest unproved area] that the closed-form inverse undoes forward on the spherical triangle, the small-angle switches, inside/outside-the-pentagon clauses: kept as projection_roundtrip_statement (a def, assumed nowhere). "
+      "Search: sphere points (uniform, on the great circle between neighbouring centres at the edge +-1e-13..1e-9, at vertices) projected relative to nearest and second-nearest face and back (worst 8e-15 rad), planar points incl. the ten internal seams / centre / edge x 12 faces; bit-exact correspondence of forward and inverse.",
+      "Lean 4 proof of the algebraic skeleton (barycentric and reflection algebra over a field; totality of the triangle index) + bit-exact correspondence + round-trip search at seams",
+      "DESIGN.md section 6 C15")
+claim("C16",
+      "[partial, small] affine_area (planar area of a probe = determinant x area of its barycentric image), cap_fraction, planar_wedge_area, equal_area_jacobian_polar (the Jacobian identity in polar form, taking the sweep formula W' = 1 - cos T as an explicit hypothesis), sphere_area_per_triangle (4 pi/120 enclosed to 19 digits), distance_to_edge_value. "
+      "[not proved] the equal-area theorem of the vertex-oriented great-circle mapping itself: equal_area_jacobian_statement is a def, assumed nowhere. "
+      "Search: probe triangles of size 1e-5..1e-3 in every sector of every face, on both sides of the ten internal seams and of the face edge incl. the reflected margin, at the face centre and the pentagon vertices; the unprojected outline (12-60 points per edge) must have area = planar area x 4 pi/(12 F) within 1e-4 (worst 2e-5); bit-exact correspondence of inverse.",
+      "Lean 4 proof of the algebraic reductions (field / real identities) + bit-exact correspondence + local area-distortion search",
+      "DESIGN.md section 6 C16")
+claim("C19",
+      "[full over R, for ANY coefficients] authalic_odd, authalic_fixes_equator, authalic_fixes_poles; clenshaw_is_fourier (what the recurrence actually computes: phi + sum c_k sin 2k phi plus a c6 sin 8 phi defect term - the intended identity is refuted by a kernel-checked counterexample; the defect is < 2^-54 with the generated coefficients), "
+      "authalic_deriv_lower_bound (> 0.995) and authalic_strict_mono for both regenerated coefficient tables (exact rationals), lon_roundtrip / colat_roundtrip over any field, exact facts about the f64 constants (PI_OVER_180 x DEG_PER_RAD rounds to 1.0; offset exactly 93); the real functions are the generic twins of the Float model (rfl). "
+      "[not proved] |g(f phi) - phi| <= 1e-12 and agreement with the closed-form WGS84 authalic latitude to 1e-11 (verified-numerics enclosure out of reach offline): searched on a dense grid incl. endpoints and pi/2 - 10^-k (worst 2.2e-16 resp. 1.7e-15 rad), monotonicity on adjacent grid points, lon/lat <-> sphere incl. poles and lon in [-540, 540] (worst 2.5e-15 rad); bit-exact correspondence.",
+      "Lean 4 proof (real-analysis identities and derivative bound in Mathlib on exact rational coefficients) + bit-exact correspondence + dense-grid search with an independent closed form",
+      "DESIGN.md section 6 C19")
